@@ -196,6 +196,20 @@ func OHealthExact(w *World) error {
 		}
 		return nil
 	}
+	// 0. the storage that ran the history itself (its cache was filled by the history's own reads, commits of
+	//    every kind and removals), with every register loaded: a valid history leaves a healthy storage
+	{
+		ids := L.SortedIDs()
+		if err := w.St.BatchPreload(ids, 1); err != nil {
+			return violf("preload into the history's own storage: %v", err)
+		}
+		if len(w.LiveRoots()) == n {
+			// (containers at the temporary address stay in the write set by design and would count as roots)
+			if err := checkHealthy(w.St, "the history's own storage after commit"); err != nil {
+				return err
+			}
+		}
+	}
 	st, err := loadAll(L.Snapshot())
 	if err != nil {
 		return violf("preload: %v", err)
@@ -402,20 +416,21 @@ func OHealthExact(w *World) error {
 
 func init() {
 	RegisterCheck(&CheckDef{ID: "C20", Level: "model_checking", Run: func(r *Run) {
-		r.Rule = "explicit-state BFS over storages produced by valid histories (two roots, externalised values, standalone and inlined children, external collision groups, multi-level trees); in every visited state, with all slabs loaded on a fresh PersistentSlabStorage and on a BasicSlabStorage: the health check must succeed and return exactly the live roots; then EVERY single-slab corruption of every kind at every slab: delete each referenced slab (uncommitted removal, committed removal, register deleted, basic storage), add an unreferenced slab, add a second reference to each referenced slab from each same-owner root (public API), attach a foreign-owner child — each must make the health check fail; GetAllChildReferences must equal the independent traversal's (resolvable, broken) partition for every slab, healthy and after each deletion"
+		r.Rule = "explicit-state BFS over storages produced by valid histories (two roots, externalised values, standalone and inlined children, external collision groups, multi-level trees); in every visited state, with all slabs loaded on the storage that ran the history (whose alphabet contains the three commit kinds), on a fresh PersistentSlabStorage and on a BasicSlabStorage: the health check must succeed and return exactly the live roots; then EVERY single-slab corruption of every kind at every slab: delete each referenced slab (uncommitted removal, committed removal, register deleted, basic storage), add an unreferenced slab, add a second reference to each referenced slab from each same-owner root (public API), attach a foreign-owner child — each must make the health check fail; GetAllChildReferences must equal the independent traversal's (resolvable, broken) partition for every slab, healthy and after each deletion"
 		r.Assumptions = []string{
 			"corruptions are single-slab; 'all slabs loaded' is established by BatchPreload of every register on a fresh storage",
 		}
 		or := []string{"healthx"}
+		orEv := []string{"healthx", "ev:commit"} // the three commit kinds inside histories
 		var specs []Spec
 		d := 4
 		if r.Thorough() {
 			d = 5
 		}
 		specs = append(specs,
-			Spec{Name: "health-mixed-T256", Kind: "mixed", T: 256, L: 3, Keys: 2, Classes: []string{"t", "limA+", "A:limA-,limA-", "A:t"}, Oracles: or, Depth: d},
+			Spec{Name: "health-mixed-T256", Kind: "mixed", T: 256, L: 3, Keys: 2, Classes: []string{"t", "limA+", "A:limA-,limA-", "A:t"}, Oracles: orEv, Depth: d},
 			Spec{Name: "health-wrapped-T256", Kind: "mixed", T: 256, L: 2, Keys: 2, Classes: []string{"s:limA+", "s:A:limA-,limA-", "ss:A:limA-,limA-", "s:M:limM,limM"}, Oracles: or, Depth: d},
-			Spec{Name: "health-split-T256", Kind: "mixed", T: 256, L: 5, Keys: 4, Classes: []string{"limM", "t"}, Oracles: or, Depth: d + 2},
+			Spec{Name: "health-split-T256", Kind: "mixed", T: 256, L: 5, Keys: 4, Classes: []string{"limM", "t"}, Oracles: orEv, Depth: d + 2},
 		)
 		for ai, a := range DigestAssignments(3) {
 			if !r.Thorough() && ai%6 != 0 {
